@@ -587,6 +587,9 @@ func (e *c12TypedErr) Error() string {
 func ptr[T any](v T) *T { return &v }
 
 func (c12) RunCase(c *core.Ctx) {
+	if c.Case%97 == 23 && !w10(c, "C12") {
+		return
+	}
 	if c.Case%40 == 11 && !c12SelfReported(c) {
 		return
 	}
